@@ -46,6 +46,9 @@ theorem packInt_eq (v : Int) (t : Tag) : packInt v t = packTLV t (intContent v) 
 theorem packEnum_eq (v : Int) (t : Tag) : packEnum v t = packTLV t (intContent v) := rfl
 theorem packBool_eq (b : Bool) (t : Tag) : packBool b t = packTLV t [if b then 255 else 0] := rfl
 
+theorem optBytes_none (t : Tag) : optBytes t none = [] := rfl
+theorem optBytes_some (t : Tag) (v : Bytes) : optBytes t (some v) = packTLV t v := rfl
+
 /-! ### readers on a written TLV -/
 
 theorem packTLV_length (t : Tag) (c : Bytes) : 2 ≤ (packTLV t c).length := by
